@@ -38,7 +38,7 @@ OUTSIDE = ["repetition counts < 1", "DynamicRepetitionStrategy callables", "IEEE
            "chain clause for blocks with several relation leaves *and* a JOINED_END relation inside (the listing is not in copy order there; counts, reset and idempotence are still asserted)"]
 ASSUMPTIONS = ["memo caches start empty; history = build -> read block duration -> apply_modifiers -> list -> read times -> apply_modifiers again",
                "hash(Sym) constant / == decided by the solver"]
-REQUIRED_REACH = ['C06.count', 'C06.untouched', 'C06.reset', 'C06.idempotent.listing', 'C06.idempotent.schedule', 'C06.chain', 'C06.nT', 'C06.library.concat']
+REQUIRED_REACH = ['C06.count', 'C06.untouched', 'C06.reset', 'C06.idempotent.listing', 'C06.idempotent.schedule', 'C06.chain', 'C06.nT', 'C06.library.concat', 'C06.count.after_extension']
 EXHAUSTIVE = {'quick': False, 'thorough': False}
 JOB_OPTS = {'quick': dict(max_paths=6000, max_seconds=500), 'thorough': dict(max_paths=40000, max_seconds=1500)}
 
@@ -84,6 +84,9 @@ def jobs(tier, seed):
         for r in reps[1:]:
             q = dict(p); q['rep'] = r
             out.append({'prog': q, 'reg': False, 'top': True})
+    for i, j in enumerate(out[:len(progs)]):
+        if i % 10 == 0:
+            j['late'] = 'again' if i % 20 == 0 else 'unrolled'
     dmax, cmax = (3, 5) if tier == 'quick' else (4, 7)
     for d in range(2, dmax + 1):
         for cycles in range(0, cmax + 1):
@@ -359,3 +362,34 @@ def run(ctx, params):
         times2 = [(o.start_time, o.end_time) for o in ops2]
         ctx.check('C06.idempotent.schedule', len(times) == len(times2) and s_and(*[s_and(a[0] == b[0], a[1] == b[1]) for a, b in zip(times, times2)]),
                   {'first': times, 'second': times2})
+        # ---- a circuit that was unrolled once is extended and unrolled again: the new counted blocks are replaced like any other -------
+        if params.get('late'):
+            from qce_circuit.language.declarative_circuit import DeclarativeCircuit
+            from qce_circuit.structure import circuit_operations as co_
+            from qce_circuit.structure.registry_duration import FixedDurationStrategy as FDS
+            target = again if params['late'] == 'again' else unrolled
+            inner = DeclarativeCircuit(repetition_strategy=FixedRepetitionStrategy(3))
+            s_in = FDS(ctx.real('d_late_in', lo=0))
+            inner.add(co_.Wait(8, duration_strategy=s_in))
+            wrapper = DeclarativeCircuit()
+            s_w = FDS(ctx.real('d_late_w', lo=0))
+            wrapper.add(co_.Wait(9, duration_strategy=s_w))
+            wrapper.add(inner)
+            direct = DeclarativeCircuit(repetition_strategy=FixedRepetitionStrategy(2))
+            s_d = FDS(ctx.real('d_late_d', lo=0))
+            direct.add(co_.Wait(7, duration_strategy=s_d))
+            # first only the plain wrapper (its counted block is nested one level down), then a directly counted block
+            target.add(wrapper)
+            third = target.apply_modifiers()
+            ops3 = third.operations
+            got = {name: sum(1 for o in ops3 if getattr(o, 'duration_strategy', None) is st) for name, st in (('nested_x3', s_in), ('wrapper_x1', s_w))}
+            ctx.check('C06.count.after_extension', got == {'nested_x3': 3, 'wrapper_x1': 1} and len(ops3) == len(ops) + 4,
+                      {'listed': got, 'expected': {'nested_x3': 3, 'wrapper_x1': 1}, 'listed_total': len(ops3), 'expected_total': len(ops) + 4})
+            third.add(direct)
+            fourth = third.apply_modifiers()
+            ops4 = fourth.operations
+            got = {name: sum(1 for o in ops4 if getattr(o, 'duration_strategy', None) is st) for name, st in (('nested_x3', s_in), ('wrapper_x1', s_w), ('direct_x2', s_d))}
+            ctx.check('C06.count.after_extension', got == {'nested_x3': 3, 'wrapper_x1': 1, 'direct_x2': 2} and len(ops4) == len(ops) + 6,
+                      {'listed': got, 'expected': {'nested_x3': 3, 'wrapper_x1': 1, 'direct_x2': 2}, 'listed_total': len(ops4), 'expected_total': len(ops) + 6})
+            ctx.check('C06.reset.after_extension', all(c_.nr_of_repetitions == 1 for c_ in fourth.composite_operations), {})
+
